@@ -1,4 +1,5 @@
 import SafeHtml.Ops.Common
+import SafeHtml.Ops.Tmpl
 import SafeHtml.Model.TmplUrl
 import SafeHtml.Model.Html
 import SafeHtml.Oracle.C14
@@ -57,6 +58,8 @@ def model (op : String) (a : List Bytes) : Option String :=
   | "tmpl.prefix.url", [p] => some (okErr (TmplUrl.validateURLPrefix p))
   | "tmpl.prefix.tru", [p] => some (okErr (TmplUrl.validateTrustedResourceURLPrefix p))
   | "tmpl.prefix.decode", [p] => some (errRes (TmplUrl.decodeURLPrefix p))
+  | "tmpl.link", [_rel, _p, _w, hist] =>
+    some (((Ops.Tmpl.runLines (Ops.Tmpl.historyLines hist)).getLast?.map (·.1)).getD "bad")
   | "tmpl.urlattr", [e, atr, p, w] => some (urlattr e atr p w)
   | "tmpl.urlattr2", [e, atr, p, a, mid, b] => some (urlattr2 e atr p a mid b)
   | _, _ => none
@@ -97,6 +100,7 @@ def oracle (op : String) (a : List Bytes) (real : List String) : Option String :
     some (match parseOptRes real with
       | some r => Oracle.C14.decode p r
       | none => "fail:unparsable-real-result")
+  | "tmpl.link", [rel, p, w, _hist] => some (Oracle.C14.linkattr rel p w real)
   | "tmpl.urlattr", [e, atr, p, w] => some (Oracle.C14.urlattr e atr p w real)
   | "tmpl.urlattr2", [e, atr, p, a, mid, b] => some (Oracle.C14.urlattr2 e atr p a mid b real)
   | _, _ => none
